@@ -22,13 +22,15 @@ Record rcfg := mkCfg {
   c_max : N;           (* allocated IDs are < c_max *)
   c_tomb : bool;       (* a stored ID 0 is a deleted name (skipped on load); 0 < ID <= c_sys_last refuses the load *)
   c_needver : bool;    (* rows are read only when the version row is set *)
-  c_late : bool        (* the pending-changes counter is cleared by store() after a successful write
+  c_late : bool;       (* the pending-changes counter is cleared by store() after a successful write
                           (true, the code as pinned) / by Prepare before it calls store() (false) *)
+  c_atomic : bool      (* Rename writes its rows with ONE storage call (the PutBatch of store(); true, the
+                          code as pinned) / with two independent Puts, both always attempted (false) *)
 }.
 
-Definition cfg_q := mkCfg reg_qname_sys_last reg_qname_max true reg_qname_needs_version reg_qname_changes_cleared_by_store.
-Definition cfg_c := mkCfg reg_cont_sys_last reg_cont_max true reg_cont_needs_version reg_cont_changes_cleared_by_store.
-Definition cfg_s := mkCfg (reg_first_singleton - 1) reg_max_singleton false reg_single_needs_version reg_single_changes_cleared_by_store.
+Definition cfg_q := mkCfg reg_qname_sys_last reg_qname_max true reg_qname_needs_version reg_qname_changes_cleared_by_store reg_rename_atomic.
+Definition cfg_c := mkCfg reg_cont_sys_last reg_cont_max true reg_cont_needs_version reg_cont_changes_cleared_by_store true.
+Definition cfg_s := mkCfg (reg_first_singleton - 1) reg_max_singleton false reg_single_needs_version reg_single_changes_cleared_by_store true.
 
 Definition rows := list (bytes * N).        (* sorted by name: the partition of the system view *)
 Record pers := mkPers { p_rows : rows; p_ver : N }.   (* p_ver: 0 = no version row, 1 = ver01 *)
@@ -148,8 +150,43 @@ Definition prepare (c : rcfg) (p : pers) (v : vol) (names : list bytes) (f : rfa
       else (p, mkVol (cs_mem s) false ver, ROk (cs_mem s)).
 
 (* qnames.Rename: its own fresh Versions and QNames objects; Prepare without a schema (never
-   stores), move the ID, tombstone the old name *)
-Definition rename (c : rcfg) (p : pers) (old new : bytes) (f : rfault) : pers * N :=
+   stores), move the ID, tombstone the old name.  The rows are written by a sequence of storage
+   calls [wop]: as pinned, the one PutBatch of store() (all known rows, among them new := id and
+   old := 0) followed by the version-row Put when the version row is absent, the first failure
+   aborting; in the other shape two Puts (new := id, old := 0), both attempted whatever happens.
+   Failures are injected per storage call. *)
+Inductive wop := WBatch (es : rows) | WPut (n : bytes) (id : N) | WVer.
+
+(* RnBatch / RnVer: the rows PutBatch / the version-row Put fails; RnWrite k: the k-th write call
+   of the rename fails; RnStop k: the process stops after its k-th write call (0: before any) *)
+Inductive rnfault := RnNone | RnBatch | RnVer | RnWrite (k : N) | RnStop (k : N).
+
+Definition wfails (f : rnfault) (k : N) (w : wop) : bool :=
+  match f with
+  | RnNone => false
+  | RnBatch => match w with WBatch _ => true | _ => false end
+  | RnVer => match w with WVer => true | _ => false end
+  | RnWrite j => k =? j
+  | RnStop j => j <? k
+  end.
+
+Definition apply_w (c : rcfg) (p : pers) (w : wop) : pers :=
+  match w with
+  | WBatch es => mkPers (put_all c es (p_rows p)) (p_ver p)
+  | WPut n id => mkPers (sm_put n id (p_rows p)) (p_ver p)
+  | WVer => mkPers (p_rows p) 1
+  end.
+
+Fixpoint exec_writes (c : rcfg) (abort : bool) (f : rnfault) (k : N) (ws : list wop) (p : pers) : pers * bool :=
+  match ws with
+  | [] => (p, true)
+  | w :: r =>
+      if wfails f k w then
+        if abort then (p, false) else (fst (exec_writes c abort f (k + 1) r p), false)
+      else exec_writes c abort f (k + 1) r (apply_w c p w)
+  end.
+
+Definition rename (c : rcfg) (p : pers) (old new : bytes) (f : rnfault) : pers * N :=
   if lex_eqb old new then (p, 5)
   else if 1 <? p_ver p then (p, 4)
   else
@@ -157,8 +194,10 @@ Definition rename (c : rcfg) (p : pers) (old new : bytes) (f : rfault) : pers * 
     if negb ok then (p, 3)
     else match sm_get old (m_names m), sm_get new (m_names m) with
          | Some id, None =>
-             let m' := mkMem (sm_put new id (sm_put old 0 (m_names m))) ((id, new) :: (0, old) :: m_ids m) (m_last m) in
-             let '(p', _, ok) := store c p (p_ver p) m' f in
+             let ws := if c_atomic c
+                       then WBatch (sm_put new id (sm_put old 0 (m_names m))) :: (if p_ver p =? 1 then [] else [WVer])
+                       else [WPut new id; WPut old 0] in
+             let '(p', ok) := exec_writes c (c_atomic c) f 1 ws p in
              (p', if ok then 0 else 1)
          | _, _ => (p, 5)
          end.
@@ -173,13 +212,23 @@ Record proc := mkProc { pr_q : vol; pr_c : vol; pr_s : vol; pr_ready : bool }.
 Definition proc0 : proc := mkProc (vol0 cfg_q) (vol0 cfg_c) (vol0 cfg_s) false.
 
 (* registry index: 0 qnames, 1 containers, 2 singletons *)
-Inductive fault := NoFault | FailBatch (r : N) | FailVer (r : N).
+(* FailWrite / StopAfter count the write calls of a Rename (they do not apply to a start) *)
+Inductive fault := NoFault | FailBatch (r : N) | FailVer (r : N) | FailWrite (k : N) | StopAfter (k : N).
 
 Definition fault_for (f : fault) (r : N) : rfault :=
   match f with
-  | NoFault => RNoFault
   | FailBatch r' => if r =? r' then RFailBatch else RNoFault
   | FailVer r' => if r =? r' then RFailVer else RNoFault
+  | _ => RNoFault
+  end.
+
+Definition rn_fault_for (f : fault) : rnfault :=
+  match f with
+  | NoFault => RnNone
+  | FailBatch r => if r =? 0 then RnBatch else RnNone
+  | FailVer r => if r =? 0 then RnVer else RnNone
+  | FailWrite k => RnWrite k
+  | StopAfter k => RnStop k
   end.
 
 Inductive action :=
@@ -219,7 +268,7 @@ Definition sys_step (st : state) (a : action) : state * sout :=
       if pr_ready pr then (st, SOk (v_mem (pr_q pr)) (v_mem (pr_c pr)) (v_mem (pr_s pr)))
       else run_start s pr qn cn sn f
   | ARename old new f =>
-      let '(q', code) := rename cfg_q (s_q s) old new (fault_for f 0) in
+      let '(q', code) := rename cfg_q (s_q s) old new (rn_fault_for f) in
       ((mkSys q' (s_c s) (s_s s), pr), if code =? 0 then SOk (mem0 cfg_q) (mem0 cfg_c) (mem0 cfg_s) else SErr code)
   end.
 
@@ -320,6 +369,7 @@ Definition agrees (t : trace) : bool := agrees_from (sys_of (t_init t), proc0) [
    - no two names of the schema share an ID;
    - a name that had an ID at an earlier successful start still has that ID, unless it was
      renamed away by a successful Rename in between;
+   - a Rename that reported a storage failure took effect completely or not at all;
    - a record written under a name that is still in the schema (and was not renamed) is decoded
      with that name; if the name has left the schema it is never decoded with another name.
    Observed: QNameID / GetSingletonID lookups, the raw container rows, Records.Get. *)
@@ -382,29 +432,61 @@ Fixpoint recs_ok (qn : list bytes) (written : list (N * bytes)) (ops : list reco
       if good then recs_ok qn written r else (false, written)
   end.
 
+(* a Rename that reported a storage failure must have taken effect completely or not at all:
+   (old, new, the ID old had) waits for the next successful start, where the observed lookups of
+   the two names decide which; anything else (both names with the ID, or neither) is a violation *)
 Record ost := mkOst { o_kq : list (bytes * N); o_kc : list (bytes * N); o_ks : list (bytes * N);
-                      o_written : list (N * bytes) }.
+                      o_written : list (N * bytes); o_pend : list (bytes * bytes * N) }.
+
+Definition has (g : bytes -> option N) (n : bytes) (id : N) : bool :=
+  match g n with Some x => x =? id | None => false end.
+
+Definition drop_written (old : bytes) (w : list (N * bytes)) : list (N * bytes) :=
+  filter (fun e => negb (lex_eqb old (snd e))) w.
+
+Fixpoint resolve (g : bytes -> option N) (pend : list (bytes * bytes * N))
+         (kq : list (bytes * N)) (w : list (N * bytes)) : bool * list (bytes * N) * list (N * bytes) :=
+  match pend with
+  | [] => (true, kq, w)
+  | (old, new, id) :: r =>
+      if has g new id && negb (has g old id) then resolve g r (forget old kq) (drop_written old w)
+      else if has g old id && negb (has g new id) then resolve g r kq w
+      else (false, kq, w)
+  end.
+
+Definition touches (a b : bytes) (e : bytes * bytes * N) : bool :=
+  let '(o, n, _) := e in lex_eqb a o || lex_eqb a n || lex_eqb b o || lex_eqb b n.
 
 Fixpoint satisfies_from (o : ost) (t : list step) : bool :=
   match t with
   | [] => true
-  | TStart _ qn cn sn docs f code d qids sids recs :: rest =>
+  | TStart retry qn cn sn docs f code d qids sids recs :: rest =>
       if code =? 0 then
         let gq := fun n => lookup_o n qids in
         let gc := fun n => lookup n (d_c d) in
         let gs := fun n => lookup_o n sids in
-        reg_ok reg_qname_sys_last reg_qname_max (o_kq o) gq qn &&
+        (* only a new process reads the storage afresh: an in-process retry may answer from objects
+           loaded before the Rename *)
+        let '(rok, kq, written) := if retry then (true, o_kq o, o_written o)
+                                   else resolve gq (o_pend o) (o_kq o) (o_written o) in
+        rok &&
+        reg_ok reg_qname_sys_last reg_qname_max kq gq qn &&
         reg_ok reg_cont_sys_last reg_cont_max (o_kc o) gc cn &&
         reg_ok (reg_first_singleton - 1) reg_max_singleton (o_ks o) gs sn &&
-        (let '(ok, written') := recs_ok qn (o_written o) recs in
-         ok && satisfies_from (mkOst (learn (o_kq o) gq (dedup qn)) (learn (o_kc o) gc (dedup cn))
-                                     (learn (o_ks o) gs (dedup sn)) written') rest)
+        (let '(ok, written') := recs_ok qn written recs in
+         ok && satisfies_from (mkOst (learn kq gq (dedup qn)) (learn (o_kc o) gc (dedup cn))
+                                     (learn (o_ks o) gs (dedup sn)) written' (if retry then o_pend o else [])) rest)
       else satisfies_from o rest
   | TRename old new f code d :: rest =>
+      let pend := filter (fun e => negb (touches old new e)) (o_pend o) in
       if code =? 0 then
-        satisfies_from (mkOst (forget old (o_kq o)) (o_kc o) (o_ks o)
-                              (filter (fun e => negb (lex_eqb old (snd e))) (o_written o))) rest
+        satisfies_from (mkOst (forget old (o_kq o)) (o_kc o) (o_ks o) (drop_written old (o_written o)) pend) rest
+      else if code =? 1 then
+        match lookup old (o_kq o) with
+        | Some id => satisfies_from (mkOst (o_kq o) (o_kc o) (o_ks o) (o_written o) ((old, new, id) :: pend)) rest
+        | None => satisfies_from o rest
+        end
       else satisfies_from o rest
   end.
 
-Definition satisfies (t : trace) : bool := satisfies_from (mkOst [] [] [] []) (t_steps t).
+Definition satisfies (t : trace) : bool := satisfies_from (mkOst [] [] [] [] []) (t_steps t).
